@@ -134,7 +134,7 @@ def hostile_values(r, t):
     it = M.inner(t)
     base = M.gen_value(r, t, in_range=True, maxlen=3)
     if isinstance(it, pydsdl.UnionType):
-        out.append(("bad_tag", {"__raw_tag__": r.choice([len(it.fields), 255, len(it.fields) + 1])}))
+        out.append(("bad_tag", {"__raw_tag__": r.choice([len(it.fields), max(255, len(it.fields) + 7), len(it.fields) + 1])}))
     # an invalid tag in a union nested somewhere inside the value (a field, an array element, an option of the selected member)
     for _ in range(3):
         v = _with_nested_bad_tag(r, t, M.gen_value(r, t, in_range=True, maxlen=3))
@@ -156,7 +156,7 @@ def _with_nested_bad_tag(r, t, v, top=True):
     it = M.inner(t)
     if isinstance(it, pydsdl.UnionType):
         if not top and r.random() < 0.6:
-            return {"__raw_tag__": r.choice([len(it.fields), len(it.fields) + 1, 255])}
+            return {"__raw_tag__": r.choice([len(it.fields), len(it.fields) + 1, max(255, len(it.fields) + 7)])}
         (k, x), = v.items()
         f = next(f for f in it.fields if f.name == k)
         sub = _bad_in(r, f.data_type, x)
